@@ -71,6 +71,9 @@ type Case struct {
 	Query    string   `json:"query"`
 	Absolute bool     `json:"absolute"` // absolute-form request target naming the decoy as authority
 	Method   string   `json:"method"`
+	// Redirect: the backend answers with this 3xx status and a Location naming the decoy listener
+	// (0 = an ordinary 200): the client must get that answer; Olla must not go there itself
+	Redirect int `json:"redirect,omitempty"`
 }
 
 var cleanSeg = rapid.StringMatching(`[A-Za-z0-9_~-][A-Za-z0-9._~-]{0,8}`)
@@ -118,6 +121,9 @@ func genCase(t *rapid.T) Case {
 	for i := 0; i < n; i++ {
 		s, _ := genSeg(t, decoy)
 		c.Segs = append(c.Segs, s)
+	}
+	if rapid.IntRange(0, 7).Draw(t, "redirect") == 0 {
+		c.Redirect = rapid.SampledFrom([]int{301, 302, 303, 307, 308}).Draw(t, "redirect-status")
 	}
 	if rapid.IntRange(0, 2).Draw(t, "hasq") > 0 {
 		c.Query = rapid.SampledFrom([]string{"a=1", "a=1&a=2", "x", "x=", "q=%2e%2e%2f", "u=http://" + decoy + "/", "a=b%26c&d", "k=%20v+w", "next=//" + decoy,
@@ -181,6 +187,11 @@ func runCase(c Case) []ev.Violation {
 	}
 	be := r.Raw[0]
 	be.SetScript(backend.JSONResponse(200, `{"ok":true}`, be.ID))
+	if c.Redirect != 0 {
+		loc := fmt.Sprintf("http://127.0.0.1:%d/redirected/away?from=backend", decoyPort)
+		be.SetScript(backend.Script{Steps: []backend.Step{{Op: "head", Status: c.Redirect, Headers: [][2]string{{"X-Backend-Id", be.ID}, {"Location", loc}, {"Content-Length", "0"}, {"Connection", "close"}}}, {Op: "close"}}})
+		rec.Class(fmt.Sprintf("backend-answers-redirect=%d", c.Redirect))
+	}
 	target := c.Prefix + strings.Join(c.Segs, "/")
 	if c.Query != "" {
 		target += "?" + c.Query
@@ -227,6 +238,9 @@ func runCase(c Case) []ev.Violation {
 		return vs
 	}
 	rec.Class("forwarded")
+	if c.Redirect != 0 && (resp.Status != c.Redirect || !strings.Contains(resp.Get("Location"), "/redirected/away")) {
+		bad("backend-redirect-not-relayed", "%s: the backend answered %d with a Location; the client got status %d, Location %q", desc, c.Redirect, resp.Status, resp.Get("Location"))
+	}
 	up := exs[0].Req
 	upPath, upQuery := up.Target, ""
 	if i := strings.IndexByte(up.Target, '?'); i >= 0 {
@@ -447,7 +461,7 @@ func TestC16(t *testing.T) {
 	}
 	startDecoy()
 	defer rig.StopAll()
-	rec.SetRule("request targets written verbatim by a raw client: clean segments mixed with dot segments, %2e/%252e encodings, encoded slashes/backslashes, empty segments (//), ;params, authority tricks (@decoy, //decoy, absolute-form targets naming a decoy listener), queries carrying URLs and sub-delimiters (; , : ' ( ) * ! $ @ / ?, doubled and trailing &); x endpoint base path {'', '/', '/base', '/a/b/', ...} x preserve_path x route prefix (/olla/proxy/ and every routing prefix declared by a shipped profile, in front of an endpoint of the owning type) x engine; a decoy listener must never be contacted, the raw backend's request line is checked for containment under the base path and, for clean targets, for the exact expected path and verbatim query. Every forwarded case is followed by a second clean request on the same endpoint (nothing of the first may stick to the endpoint's URL). Sub-check 'ports': 2..4 endpoints on one machine configured by address or by host name (http://localhost:<port>), with generated base paths, under round-robin: every request Olla attributes to an endpoint was received on that endpoint's own port. Plus generated relative/absolute health_check_url and model_url resolved by LoadFromConfig. non-trivial = target with a dot-segment/encoding/slash anomaly with preserve_path on and a nested base path (config: relative path under a nested base); distinct by full case")
+	rec.SetRule("request targets written verbatim by a raw client: clean segments mixed with dot segments, %2e/%252e encodings, encoded slashes/backslashes, empty segments (//), ;params, authority tricks (@decoy, //decoy, absolute-form targets naming a decoy listener), queries carrying URLs and sub-delimiters (; , : ' ( ) * ! $ @ / ?, doubled and trailing &); x endpoint base path {'', '/', '/base', '/a/b/', ...} x preserve_path x route prefix (/olla/proxy/ and every routing prefix declared by a shipped profile, in front of an endpoint of the owning type) x engine; a decoy listener must never be contacted (also not when the backend answers 301/302/303/307/308 with a Location that names it: the redirect is the client's to follow), the raw backend's request line is checked for containment under the base path and, for clean targets, for the exact expected path and verbatim query. Every forwarded case is followed by a second clean request on the same endpoint (nothing of the first may stick to the endpoint's URL). Sub-check 'ports': 2..4 endpoints on one machine configured by address or by host name (http://localhost:<port>), with generated base paths, under round-robin: every request Olla attributes to an endpoint was received on that endpoint's own port. Plus generated relative/absolute health_check_url and model_url resolved by LoadFromConfig. non-trivial = target with a dot-segment/encoding/slash anomaly with preserve_path on and a nested base path (config: relative path under a nested base); distinct by full case")
 	rec.Assume("unclean targets may legitimately be answered by the mux's redirect or an error without any backend contact; the Host header sent upstream is the client's (documented) and is not asserted")
 	if ev.Replay(t, rec, "target", runCase) || ev.Replay(t, rec, "config", runCfg) || ev.Replay(t, rec, "ports", runPorts) {
 		return
